@@ -139,7 +139,37 @@ func checkC06(c TextCase, st *Stats) error {
 var propC06 = Register(Prop[TextCase]{ID: "C06", Name: "C06", Check: checkC06})
 
 func genC06(t *rapid.T) TextCase {
-	switch rapid.IntRange(0, 6).Draw(t, "origin") {
+	switch rapid.IntRange(0, 7).Draw(t, "origin") {
+	case 7: // one letter of a valid description replaced by (or one position filled with) a non-ASCII rune that case
+		// folding, width folding or digit classes could mistake for an ASCII letter or digit
+		i := GenIface(t, 3)
+		s := Render(i, RapidLayout{T: t, EOL: "\n"})
+		r := rapid.SampledFrom([]rune{0x212A, 0x017F, 0x0130, 0x0131, 0xFF41, 0xFF21, 0xFF10, 0x0660, 0x00B5, 0x2126, 0x00DF, 0x1E9E, 0x00C9, 0x0301, 0x00AD, 0x200B, 0x2028, 0x00A0, 0x3000, 0x2010, 0x2212, 0xFF0E, 0xFF1A}).Draw(t, "rune")
+		var letters []int
+		for k := 0; k < len(s); k++ {
+			if c := s[k]; c >= 'a' && c <= 'z' || c >= 'A' && c <= 'Z' || c >= '0' && c <= '9' || c == '.' || c == '-' || c == ':' || c == ' ' {
+				letters = append(letters, k)
+			}
+		}
+		if len(letters) == 0 {
+			return mkTextCase(s, "valid", false)
+		}
+		// prefer the interface name (the first line) half of the time
+		k := rapid.SampledFrom(letters).Draw(t, "rpos")
+		if nl := strings.Index(s, "\n"); nl > 10 && rapid.Bool().Draw(t, "inname") {
+			if at := strings.Index(s, "interface"); at >= 0 && at+11 < nl {
+				k = at + 10 + rapid.IntRange(0, nl-at-10).Draw(t, "npos")
+				if k >= len(s) {
+					k = len(s) - 1
+				}
+			}
+		}
+		if rapid.Bool().Draw(t, "replace") {
+			s = s[:k] + string(r) + s[k+1:]
+		} else {
+			s = s[:k] + string(r) + s[k:]
+		}
+		return mkTextCase(s, "rune-edit", false)
 	case 6: // arbitrary bytes inserted into a valid description under a random layout
 		i := GenIface(t, 3)
 		s := Render(i, RapidLayout{T: t, EOL: "\n"})
